@@ -618,7 +618,7 @@ def m_map_insert(ex, st, callee, args, dty, m):
     val = args[2] if len(args) > 2 else UNIT
     for e in mv.entries:
         e[0] = z3.simplify(z3.And(e[0], z3.Not(key_eq(ex, e[1], k))))
-    mv.entries.append([z3.BoolVal(True), k, val])
+    mv.entries.append([z3.BoolVal(True), k, Cell(val)])
     return Opaque("insert-result!%d" % next(ex.fresh_counter), dty)
 
 
@@ -644,7 +644,7 @@ def m_map_get(ex, st, callee, args, dty, m):
     for p, ek, ev in mv.entries:
         c = z3.simplify(z3.And(p, key_eq(ex, ek, k)))
         none_cond.append(z3.Not(c))
-        outs.append((c, mk_some(dty, Ref(Cell(ev), ()))))
+        outs.append((c, mk_some(dty, Ref(ev, ()))))
     outs.append((z3.And(*none_cond) if none_cond else z3.BoolVal(True), mk_none(dty)))
     return ("__fork__", outs)
 
@@ -773,7 +773,7 @@ def m_map_get_mut(ex, st, callee, args, dty, m):
     for i, (pres, ek, ev) in enumerate(mv.entries):
         cnd = z3.simplify(z3.And(pres, key_eq(ex, ek, k)))
         none_cond.append(z3.Not(cnd))
-        outs.append((cnd, mk_some(dty, Ref(Cell(ev), (), True))))
+        outs.append((cnd, mk_some(dty, Ref(ev, (), True))))
     outs.append((z3.And(*none_cond) if none_cond else z3.BoolVal(True), mk_none(dty)))
     return ("__fork__", outs)
 
@@ -871,3 +871,99 @@ def m_iter_adaptor(ex, st, callee, args, dty, m):
     if items is None:
         return NotImplemented
     return iter_driver(ex, m.group(1), items, args[1], dty)
+
+
+# ---------------------------------------------------------------- more containers: VecDeque, HashMap iteration / entry API, Ord::cmp
+@model(r"VecDeque::<.*>::make_contiguous$|VecDeque::<.*>::as_mut_slices$")
+def m_make_contiguous(ex, st, callee, args, dty, m):
+    return args[0]
+
+
+@model(r"(?:std|core)::slice::<impl \[.*\]>::sort_by::<.*>$|(?:std|core)::slice::<impl \[.*\]>::sort_unstable_by::<.*>$")
+def m_sort_by_identity(ex, st, callee, args, dty, m):
+    # ASSUMPTION (stated by the obligations that reach this): the slice is already sorted by the
+    # comparison closure, so a stable sort is the identity
+    st.events.append(("assume-sorted", callee, args, None))
+    return UNIT
+
+
+@model(r"VecDeque::<.*>::(iter_mut|iter)$|<&(?:mut )?VecDeque<.*> as IntoIterator>::into_iter$|(?:std|core)::slice::<impl \[.*\]>::iter_mut$|Vec::<.*>::iter_mut$|<&(?:mut )?Vec<.*> as IntoIterator>::into_iter$")
+def m_deque_iter(ex, st, callee, args, dty, m):
+    v = deref(ex, args[0])
+    if isinstance(v, Seq):
+        return Agg("struct", "SeqIter", [args[0], u64(0)])
+    return NotImplemented
+
+
+@model(r"<(?:std::collections::)?vec_deque::Iter(?:Mut)?<'_, .*> as Iterator>::next$|<(?:std|core)::slice::IterMut<'_, .*> as Iterator>::next$")
+def m_deque_iter_next(ex, st, callee, args, dty, m):
+    return m_slice_iter_next(ex, st, callee, args, dty, m)
+
+
+@model(r"VecDeque::<.*>::push_back$")
+def m_deque_push_back(ex, st, callee, args, dty, m):
+    v = deref(ex, args[0])
+    if isinstance(v, Seq):
+        v.items.append(args[1])
+        return UNIT
+    return NotImplemented
+
+
+@model(MAP_RE + r"::(iter_mut|iter)$|<&(?:mut )?(?:std::collections::)?HashMap<.*> as IntoIterator>::into_iter$")
+def m_map_iter(ex, st, callee, args, dty, m):
+    mv = as_map(ex, args[0])
+    if mv.entries is None:
+        return NotImplemented
+    items = []
+    for e in mv.entries:
+        if not z3.is_true(z3.simplify(e[0])):
+            raise Unsupported("iteration over a map with conditionally present entries")
+        items.append(Agg("tuple", "(k,v)", [Ref(Cell(e[1]), ()), Ref(e[2], (), True)]))
+    return Agg("struct", "SeqIter", [Ref(Cell(Seq(items)), ()), u64(0)])
+
+
+@model(r"<(?:std::collections::)?hash_map::Iter(?:Mut)?<'_, .*> as Iterator>::next$")
+def m_map_iter_next(ex, st, callee, args, dty, m):
+    it = deref(ex, args[0])
+    if not (isinstance(it, Agg) and it.name == "SeqIter"):
+        return NotImplemented
+    seq = deref(ex, it.fields[0])
+    i = as_int(it.fields[1])
+    if i >= len(seq.items):
+        return mk_none(dty)
+    it.fields[1] = u64(i + 1)
+    return mk_some(dty, seq.items[i])
+
+
+@model(MAP_RE + r"::entry$")
+def m_map_entry(ex, st, callee, args, dty, m):
+    mv = as_map(ex, args[0])
+    if mv.entries is None:
+        return NotImplemented
+    return Agg("struct", "MapEntry", [args[0], args[1]])
+
+
+@model(r"(?:std::collections::)?hash_map::Entry::<'_, .*>::or_default$|Entry::<'_, .*>::or_default$")
+def m_entry_or_default(ex, st, callee, args, dty, m):
+    e = args[0]
+    if not (isinstance(e, Agg) and e.name == "MapEntry"):
+        return NotImplemented
+    mv = as_map(ex, e.fields[0])
+    k = e.fields[1]
+    # concrete decision only: keys compared syntactically through the solver-free simplifier
+    for ent in mv.entries:
+        c = z3.simplify(z3.And(ent[0], key_eq(ex, ent[1], k)))
+        if z3.is_true(c):
+            return Ref(ent[2], (), True)
+        if not z3.is_false(c):
+            raise Unsupported("entry() on a key whose presence is symbolic")
+    mt = re.search(r"Vec<(.*)>>::or_default$", callee)
+    newc = Cell(Seq([], None))
+    mv.entries.append([z3.BoolVal(True), k, newc])
+    return Ref(newc, (), True)
+
+
+@model(r"<(u8|u16|u32|u64|usize|i32|i64) as (?:std::cmp::|core::cmp::)?Ord>::cmp$|(?:std|core)::cmp::impls::<impl Ord for (u8|u16|u32|u64|usize|i32|i64)>::cmp$")
+def m_int_cmp(ex, st, callee, args, dty, m):
+    a, b = deref(ex, args[0]), deref(ex, args[1])
+    return ex.binop("Cmp", a, b)
